@@ -26,11 +26,14 @@ CONSTANTS Geoms,       \* sequence of [name, cls, dims, edges]
           MaxDepth,    \* gates per history
           WideDepth,   \* histories shorter than this explore the full cross product
           MaxArity,
+          WideGids,    \* gate ids explored below WideDepth (3 = a product gate)
+          NarrowOps, NarrowArity,
+          Lanes,       \* one initial state per first site tuple (parallelism of the exhaustive run)
           Record,      \* keep the history (simulation / replay) or not (exhaustive)
           Bug          \* "none", or a named mutation of Impl used as a self-test of the model
 
-VARIABLES geom, psi, outer, sitetags, form, depth, nrej, ok, hist
-vars == <<geom, psi, outer, sitetags, form, depth, nrej, ok, hist>>
+VARIABLES geom, lane, psi, outer, sitetags, form, depth, nrej, ok, hist
+vars == <<geom, lane, psi, outer, sitetags, form, depth, nrej, ok, hist>>
 
 (* ---------------- small deterministic data ---------------- *)
 InitVec(D, s) == [i \in 1..D |-> <<((i * 7 + s * 3 + (i \div 3)) % 5) - 2, ((i * 3 + s + (i \div 2)) % 3) - 1>>]
@@ -40,7 +43,7 @@ GateMat(d, g) ==
    data |-> [n \in 1..(d * d) |->
                LET r == (n - 1) \div d
                    c == (n - 1) % d
-               IN <<((3 * r + 5 * c + r * c + 2 * g + 1) % 5) - 2, ((r + 2 * c + g + (r * r) % 3) % 3) - 1>>]]
+               IN <<((3 * r + 5 * c + r * c + 2 * g + 1) % 5) - 2, ((r + 2 * c + g + ((r * r) % 3)) % 3) - 1>>]]
 \* a product gate (operator-Schmidt rank one): exercises the rank decisions of the gate-splitting modes
 ProdGate(gd, g) ==
   IF Len(gd) = 1 THEN GateMat(gd[1], g)
@@ -86,19 +89,25 @@ Whiches(cls, r) ==
 \* array and then wires it transposed
 WireMat(G, op) == CASE op = "N" -> G [] op = "T" -> Transpose(G) [] op = "H" -> Transpose(ConjMat(G))
 
-RECURSIVE SwapRun(_, _, _, _, _)
-\* exchange neighbours along the run of positions p, p + step, ... until `last` (inclusive)
-SwapRun(v, dims, p, last, step) ==
-  IF (step > 0 /\ p > last) \/ (step < 0 /\ p < last) THEN [v |-> v, dims |-> dims]
-  ELSE SwapRun(SwapAdj(v, dims, p), SwapDims(dims, p), p + step, last, step)
-
+\* positions p, p + step, ..., last as a sequence (a run of neighbour exchanges; at most MaxRun of them)
+RunOf(p, last, step) ==
+  LET len == IF step > 0 THEN (IF p > last THEN 0 ELSE last - p + 1) ELSE (IF p < last THEN 0 ELSE p - last + 1)
+  IN  [m \in 1..len |-> p + (m - 1) * step]
+\* exchange neighbours along a run (written out, not recursive: TLC re-evaluates the arguments of recursive
+\* operators at every use).  Chains of up to four sites between the two gate sites are covered.
+SwapRun(v, dims, run) ==
+  LET n  == Len(run)
+      v1 == IF n >= 1 THEN SwapAdj(v,  dims, run[1]) ELSE v
+      d1 == IF n >= 1 THEN SwapDims(dims, run[1]) ELSE dims
+      v2 == IF n >= 2 THEN SwapAdj(v1, d1, run[2]) ELSE v1
+      d2 == IF n >= 2 THEN SwapDims(d1, run[2]) ELSE d1
+      v3 == IF n >= 3 THEN SwapAdj(v2, d2, run[3]) ELSE v2
+      d3 == IF n >= 3 THEN SwapDims(d2, run[3]) ELSE d2
+      v4 == IF n >= 4 THEN SwapAdj(v3, d3, run[4]) ELSE v3
+      d4 == IF n >= 4 THEN SwapDims(d3, run[4]) ELSE d3
+  IN  [v |-> v4, dims |-> d4]
 \* swap_sites_with_compress of site p of an operator: both the upper and the lower physical space move
-OpSwapAdj(v, dd, n, p) == SwapAdj(SwapAdj(v, dd, p), SwapDims(dd, p), n + p)
-OpSwapDims(dd, n, p) == SwapDims(SwapDims(dd, p), n + p)
-RECURSIVE OpSwapRun(_, _, _, _, _, _)
-OpSwapRun(v, dd, n, p, last, step) ==
-  IF (step > 0 /\ p > last) \/ (step < 0 /\ p < last) THEN [v |-> v, dims |-> dd]
-  ELSE OpSwapRun(OpSwapAdj(v, dd, n, p), OpSwapDims(dd, n, p), n, p + step, last, step)
+OpRun(run, n) == [m \in 1..(2 * Len(run)) |-> IF m % 2 = 1 THEN run[(m + 1) \div 2] ELSE n + run[m \div 2]]
 
 \* gate_with_auto_swap: work with i < j but flip the application of the gate when necessary; move site j next
 \* to site i, apply the gate to (i, i+1) [or (i+1, i)], move it back
@@ -109,9 +118,9 @@ ImplAutoSwap(G, dims, sites, v, op) ==
       hi == IF a < b THEN b ELSE a
       flipped == a > b
       gw == IF flipped /\ Bug # "noflip" THEN <<lo + 1, lo>> ELSE <<lo, lo + 1>>
-      s1 == SwapRun(v, dims, hi - 1, lo + 1, -1)
+      s1 == SwapRun(v, dims, RunOf(hi - 1, lo + 1, -1))
       v2 == ApplyLocal(WireMat(G, op), s1.dims, gw, s1.v)
-      s3 == IF Bug = "noswapback" THEN [v |-> v2, dims |-> s1.dims] ELSE SwapRun(v2, s1.dims, lo + 1, hi - 1, 1)
+      s3 == IF Bug = "noswapback" THEN [v |-> v2, dims |-> s1.dims] ELSE SwapRun(v2, s1.dims, RunOf(lo + 1, hi - 1, 1))
   IN  s3.v
 
 \* MatrixProductOperator.from_dense(G, dims, sites=where) builds the MPO in sorted site order; the MPS then
@@ -143,9 +152,9 @@ ImplSandwichSwap(G, dims, sites, v, op) ==
       lo == IF a < b THEN a ELSE b
       hi == IF a < b THEN b ELSE a
       gw == IF a > b THEN <<lo + 1, lo>> ELSE <<lo, lo + 1>>
-      s1 == OpSwapRun(v, dd, n, hi - 1, lo + 1, -1)
+      s1 == SwapRun(v, dd, OpRun(RunOf(hi - 1, lo + 1, -1), n))
       v2 == ImplSandwich(G, s1.dims, gw, [k \in 1..2 |-> n + gw[k]], s1.v, op)
-      s3 == OpSwapRun(v2, s1.dims, n, lo + 1, hi - 1, 1)
+      s3 == SwapRun(v2, s1.dims, OpRun(RunOf(lo + 1, hi - 1, 1), n))
   IN  s3.v
 
 \* gate_with_op_lazy / gate_upper_with_op_lazy / gate_lower_with_op_lazy / gate_sandwich_with_op_lazy with the
@@ -197,7 +206,7 @@ FactAdjoint(G, dims, sites, v) ==
        [i \in DOMAIN v |-> GConj(ApplyLocal(Dagger(G), dims, sites, [j \in DOMAIN v |-> GConj(v[j])])[i])]
 \* the local evaluation is the library's Embed (the statement)
 FactDef(G, g, sites, v, op, which) ==
-  Size(g.dims) <= 24 /\ (IsOp(g.cls) => Size(g.dims) <= 6) =>
+  Size(g.dims) <= 12 /\ (IsOp(g.cls) => Size(g.dims) <= 6) =>
      ApplyRef(G, g.dims, sites, v, op, which) = ApplyRefDef(G, g.dims, sites, v, op, which)
 \* Embed of a product = product of Embeds on disjoint sites (in either order)
 FactProduct(g, v) ==
@@ -216,8 +225,11 @@ FactProduct(g, v) ==
   /\ \A a, b \in 1..n : a # b => ApplyLocal(IdMat(dims[a] * dims[b]), dims, <<a, b>>, v) = v
 
 (* ---------------- the state machine ---------------- *)
+\* `lane` only spreads the exhaustive exploration over TLC's workers: it fixes the site tuple of the first
+\* gate already in the initial state (one initial state per geometry and tuple); <<>> = no restriction
 Init ==
   /\ geom \in {Geoms[i] : i \in DOMAIN Geoms}
+  /\ lane \in (IF Lanes THEN SiteTuples(geom) ELSE {<<>>})
   /\ psi = InitVec(Size(DenseDims(geom)), Len(geom.dims))
   /\ outer = OuterOf(geom)
   /\ sitetags = DOMAIN geom.dims
@@ -225,13 +237,15 @@ Init ==
   /\ depth = 0 /\ nrej = 0 /\ ok = TRUE /\ hist = <<>>
 
 Wide == depth < WideDepth
-Ops == IF Wide THEN {"N", "T", "H"} ELSE {"N", "H"}
-Gids == IF Wide THEN {1, 2, 3} ELSE {1}
+Ops == IF Wide THEN {"N", "T", "H"} ELSE NarrowOps
+Gids == IF Wide THEN WideGids ELSE {1}
 Routes == IF Wide THEN RoutesOf(geom.cls) ELSE NarrowRoutes(geom.cls)
+Sites == IF depth = 0 /\ lane # <<>> THEN {lane}
+         ELSE IF Wide THEN SiteTuples(geom) ELSE {s \in SiteTuples(geom) : Len(s) <= NarrowArity}
 
 Act(kind, r, sites, G, op, which) ==
-  [kind |-> kind, geom |-> geom.name, entry |-> r.entry, mode |-> r.mode, sites |-> sites, op |-> op, which |-> which,
-   G |-> G, formbefore |-> form]
+  [kind |-> kind, geom |-> geom.name, dims |-> geom.dims, entry |-> r.entry, mode |-> r.mode, sites |-> sites, op |-> op,
+   which |-> which, G |-> G, formbefore |-> form]
 
 \* Apply, split by implementation family so that coverage is reported per family
 ApplyVia(r, sites, g, op, which) ==
@@ -245,42 +259,52 @@ ApplyVia(r, sites, g, op, which) ==
       /\ psi' = ref
       /\ outer' = outer /\ sitetags' = sitetags
       /\ form' = FormAfter(form, r.entry, r.mode, k)
-      /\ ok' = (/\ imp = ref
-                /\ (depth = 0 => /\ FactPerm(OpVar(G, op), DenseDims(geom), sites, psi)
-                                 /\ FactAdjoint(G, DenseDims(geom), sites, psi)
-                                 /\ FactDef(G, geom, sites, psi, op, which)))
-      /\ depth' = depth + 1 /\ nrej' = nrej
+      /\ ok' = (imp = ref)
+      /\ depth' = depth + 1 /\ nrej' = nrej /\ lane' = <<>>
       /\ hist' = IF Record THEN Append(hist, Act("apply", r, sites, G, op, which)) ELSE hist
       /\ UNCHANGED geom
 
 SwapFamily(r, k) == r.entry \in {"gate_with_auto_swap", "gate_sandwich_with_auto_swap"} \/ (r.entry = "gate" /\ k = 2 /\ r.mode \in {"swap+split", "auto-mps"})
 MpoFamily(r, k) == r.entry \in {"gate_nonlocal", "gate_with_submpo", "gate_with_mpo"} \/ (r.entry = "gate" /\ k >= 2 /\ r.mode = "nonlocal") \/ (r.entry = "gate" /\ k >= 3 /\ r.mode = "auto-mps")
 
-ApplyWired == \E r \in Routes, s \in SiteTuples(geom), g \in Gids, op \in Ops : \E w \in Whiches(geom.cls, r) :
+ApplyWired == \E r \in Routes, s \in Sites, g \in Gids, op \in Ops : \E w \in Whiches(geom.cls, r) :
                  /\ ~SwapFamily(r, Len(s)) /\ ~MpoFamily(r, Len(s)) /\ r.entry # "op_lazy" /\ w # "sandwich"
                  /\ ApplyVia(r, s, g, op, w)
-ApplySandwich == \E r \in Routes, s \in SiteTuples(geom), g \in Gids, op \in Ops :
+ApplySandwich == \E r \in Routes, s \in Sites, g \in Gids, op \in Ops :
                  /\ ~SwapFamily(r, Len(s)) /\ r.entry # "op_lazy" /\ IsOp(geom.cls)
                  /\ "sandwich" \in Whiches(geom.cls, r)
                  /\ ApplyVia(r, s, g, op, "sandwich")
-ApplySwapped == \E r \in Routes, s \in SiteTuples(geom), g \in Gids, op \in Ops : \E w \in Whiches(geom.cls, r) :
+ApplySwapped == \E r \in Routes, s \in Sites, g \in Gids, op \in Ops : \E w \in Whiches(geom.cls, r) :
                  SwapFamily(r, Len(s)) /\ ApplyVia(r, s, g, op, w)
-ApplySubMpo == \E r \in Routes, s \in SiteTuples(geom), g \in Gids, op \in Ops :
+ApplySubMpo == \E r \in Routes, s \in Sites, g \in Gids, op \in Ops :
                  MpoFamily(r, Len(s)) /\ ApplyVia(r, s, g, op, "site")
-ApplyOpLazy == \E r \in Routes, s \in SiteTuples(geom), g \in Gids, op \in Ops : \E w \in Whiches(geom.cls, r) :
+ApplyOpLazy == \E r \in Routes, s \in Sites, g \in Gids, op \in Ops : \E w \in Whiches(geom.cls, r) :
                  r.entry = "op_lazy" /\ ApplyVia(r, s, g, op, w)
 
 \* a combination the table refuses: quimb raises, nothing changes
 Reject ==
-  \E r \in Routes, s \in SiteTuples(geom), op \in {"N"} : \E w \in Whiches(geom.cls, r) :
+  \E r \in Routes, s \in Sites, op \in {"N"} : \E w \in Whiches(geom.cls, r) :
      /\ depth < MaxDepth /\ nrej < 1
      /\ Accepts(geom.cls, r.entry, r.mode, Len(s), PairAdjacent(geom.edges, s), form, op, w) = "no"
      /\ ~(r.entry = "Tensor.gate")
      /\ nrej' = nrej + 1
      /\ hist' = IF Record THEN Append(hist, Act("reject", r, s, GateFor(SubDims(geom.dims, s), 1), op, w)) ELSE hist
-     /\ UNCHANGED <<geom, psi, outer, sitetags, form, depth, ok>>
+     /\ UNCHANGED <<geom, lane, psi, outer, sitetags, form, depth, ok>>
 
-Next == ApplyWired \/ ApplySandwich \/ ApplySwapped \/ ApplySubMpo \/ ApplyOpLazy \/ Reject
+\* the algebraic facts of the reference, for the lane's tuple (a terminal step of the exhaustive exploration)
+CheckFacts ==
+  /\ depth = 0 /\ lane # <<>> /\ nrej = 0 /\ ~Record
+  /\ ok' = /\ \A g \in WideGids, op \in {"N", "T", "H"} :
+                 LET G == GateFor(SubDims(geom.dims, lane), g) IN
+                 /\ FactPerm(OpVar(G, op), DenseDims(geom), lane, psi)
+                 /\ (g = 1 => FactAdjoint(G, DenseDims(geom), lane, psi))
+                 /\ \A w \in (IF IsOp(geom.cls) THEN {"upper", "lower", "sandwich"} ELSE {"site"}) :
+                       (g = 1 => FactDef(G, geom, lane, psi, op, w))
+            /\ (lane = <<1>> => FactProduct([geom EXCEPT !.dims = DenseDims(geom)], psi))
+  /\ depth' = MaxDepth
+  /\ UNCHANGED <<geom, lane, psi, outer, sitetags, form, nrej, hist>>
+
+Next == ApplyWired \/ ApplySandwich \/ ApplySwapped \/ ApplySubMpo \/ ApplyOpLazy \/ Reject \/ CheckFacts
 Spec == Init /\ [][Next]_vars
 
 (* ---------------- properties ---------------- *)
@@ -288,7 +312,6 @@ Spec == Init /\ [][Next]_vars
 RoutesAgree == ok
 \* the naming of the network never changes
 NamingKept == outer = OuterOf(geom) /\ sitetags = DOMAIN geom.dims
-FactsProduct == depth = 0 => FactProduct([geom EXCEPT !.dims = DenseDims(geom)], psi)
 \* a rejection is a stuttering step of the abstract state
 RejectStutters == [][nrej' # nrej => psi' = psi /\ outer' = outer /\ sitetags' = sitetags /\ form' = form]_vars
 TypeOK == /\ Len(psi) = Size(DenseDims(geom))
